@@ -57,6 +57,9 @@ type Op struct {
 	// restart only: the first ReadFaults queries of the datastore during start-up fail with an I/O error
 	// (a read fault changes nothing on disk). A start that is refused is simply tried again.
 	ReadFaults int `json:"read_faults,omitempty"`
+	// restart only: the operator changes the queue bound (max_queue_size) for the next process life time
+	SetBound bool `json:"set_bound,omitempty"`
+	NewBound int  `json:"new_bound,omitempty"` // 0 = unbounded
 }
 
 type Scenario struct {
@@ -152,6 +155,10 @@ func genOp(t *rapid.T, chain []byte, faults bool) Op {
 		op.Kind = "restart"
 		if faults && rapid.IntRange(0, 3).Draw(t, "readfault") == 0 {
 			op.ReadFaults = rapid.IntRange(1, 2).Draw(t, "readfaults")
+		}
+		if rapid.IntRange(0, 3).Draw(t, "rebound") == 0 {
+			op.SetBound = true
+			op.NewBound = rapid.IntRange(0, 5).Draw(t, "newbound")
 		}
 	}
 	if faults && op.Kind != "restart" && !op.PutErr && rapid.IntRange(0, 7).Draw(t, "crash") == 0 {
@@ -743,6 +750,13 @@ func runHistory(sc Scenario, globalCrash int) (world.Verdict, int) {
 		case "next":
 			v = w.next(i, op, fmt.Sprintf("op %d (next)", i))
 		case "restart":
+			if op.SetBound {
+				if op.NewBound > 0 && w.minLen() > op.NewBound {
+					w.labels["restart-with-bound-below-backlog"] = true
+				}
+				w.sc.Bound = op.NewBound
+				w.labels["bound-changed-at-restart"] = true
+			}
 			v = w.rebootFaulty("restart-op", op.ReadFaults)
 		}
 		if v != nil {
